@@ -11,6 +11,7 @@ NOTE_S = "reals stand in for floats (IEEE rounding / float32 storage outside the
 CHECKS = {
     "C01": dict(engine="S", text="bounded symbolic execution of the real accessor methods with every spectral bin a symbolic real >= 0 on a fixed family of grids; z3 proves impl == defining integral for all such spectra or returns a spectrum that is replayed in floats", ref="6/C01"),
     "C02": dict(engine="S", text="the real _peak / xrstats / npstats peak code is executed on symbolic 1-D and 2-D spectra (every path = one ordering pattern of the bins); on every path z3 proves the returned period/frequency/direction/spread/alpha/gamma is the one of a highest interior strict local maximum (NaN iff none), with the parabola vertex strictly between the neighbours", ref="6/C02"),
+    "C03": dict(engine="S", text="np_ptm1/np_ptm2/np_ptm3 (real code objects) are executed on symbolic spectra, wind speed and cutoff with the watershed replaced by every label map its contract allows on the grid; on every path z3 proves bin-is-input-or-zero, no shared bin, conservation (or <= with the dropped swells the smallest), the requested count, the wind-sea fraction rule, and Hs ordering with empties last; the accessor wrappers are checked for count/order per position", ref="6/C03"),
     "C04": dict(engine="L", text="the LLVM IR clang emits for the current specpart.c is interpreted symbolically on spectra whose bins are symbolic reals; every feasible path (level assignment x tie-breaks) ends in a concrete label map that an independent flood-fill reference must accept (all bins labelled, one connected basin per regional maximum of the discretised field, circular in direction), re-run on every circular shift; neighbour table checked for every shape up to 8x8; consecutive calls with different shapes against a fresh state", ref="6/C04",
                 note="real arithmetic stands in for the float discretisation; clang's -O0 IR trusted; counterexamples are replayed on an AddressSanitizer/UBSan build of the real C file", technique="symbolic execution of the compiler's IR (own interpreter) + SMT for path feasibility, memory-safety and overflow obligations; counterexample replay under sanitizers"),
     "C05": dict(engine="S", text="relational symbolic runs of every catalogue operation on the same symbolic data stored with dims transposed, directions rolled by every offset and reversed: z3 proves label-for-label equality; for the C boundary the strides numpy really hands to specpart.partition (recorded on 10 layout/dtype variants through the real wrappers) are checked by SMT against the address map of the C code and mismatches are replayed against the real extension", ref="6/C05"),
